@@ -7,5 +7,6 @@ CONSTANTS
     Compat <- Code_Compat
     LatestEdition <- Code_LatestEdition
     Forms <- AllFormsD
+    NightlyZero = "reject"
 INVARIANTS Emit EmitTables
 CHECK_DEADLOCK FALSE
